@@ -17,9 +17,16 @@ import (
 type c31lib struct {
 	user, pass string
 	will       bool
+	cycle      bool // Connect, one sleep cycle, Connect again
 }
 
-func (k c31lib) name() string { return fmt.Sprintf("user=%q password=%q will=%t", k.user, k.pass, k.will) }
+func (k c31lib) name() string {
+	n := fmt.Sprintf("user=%q password=%q will=%t", k.user, k.pass, k.will)
+	if k.cycle {
+		n += " connect, sleep, connect again"
+	}
+	return n
+}
 
 func runC31lib(t *testing.T, k c31lib, prefix []int) explore.ExecResult {
 	res, _ := explore.Bubble(t, prefix, func(s *vsched.Sched) (string, []explore.Violation) {
@@ -62,6 +69,27 @@ func runC31lib(t *testing.T, k c31lib, prefix []int) explore.ExecResult {
 				break
 			}
 			s.AdvanceTo(at, false)
+		}
+		// "every CONNECT it sends": also the CONNECT that takes the client from a sleep cycle back to active
+		if k.cycle && call.Returned && call.Err == "" && len(s.Panics) == 0 {
+			s.NoChoice = true
+			sl := c.Go("Sleep(1s)", func() error { return c.C.Sleep(time.Second) })
+			for i := 0; i < 8 && !sl.Returned && len(s.Panics) == 0 && s.HarnessEr == ""; i++ {
+				s.FireNext()
+			}
+			s.NoChoice = false
+			if sl.Returned && sl.Err == "" {
+				log = append(log, "slept")
+				call = c.Go("Connect (wake-up)", c.C.Connect)
+				end := s.Now().Add(10 * time.Second)
+				for !call.Returned && len(s.Panics) == 0 && s.HarnessEr == "" {
+					at, ok := s.NextTimer()
+					if !ok || at.After(end) {
+						break
+					}
+					s.AdvanceTo(at, false)
+				}
+			}
 		}
 		s.NoChoice = true
 		out := c.Take()
@@ -120,7 +148,8 @@ func runC31lib(t *testing.T, k c31lib, prefix []int) explore.ExecResult {
 
 func TestC31lib(t *testing.T) {
 	var scs []explore.Scenario
-	for _, k := range []c31lib{{"", "", false}, {"", "", true}, {"", "secret", false}, {"u1", "p1", false}, {"u1", "p1", true}, {"u1", "", false}} {
+	for _, k := range []c31lib{{user: "", pass: "", will: false}, {will: true}, {pass: "secret"}, {user: "u1", pass: "p1"}, {user: "u1", pass: "p1", will: true}, {user: "u1"},
+		{user: "u1", pass: "p1", cycle: true}, {cycle: true}} {
 		k := k
 		scs = append(scs, explore.Scenario{Name: k.name(), Run: func(p []int) explore.ExecResult { return runC31lib(t, k, p) }})
 	}
@@ -134,7 +163,7 @@ func TestC31lib(t *testing.T) {
 	n, _ := rep.Coverage["schedules"].(int)
 	rep.Coverage["evaluations"] = n
 	rep.Coverage["distinct_nontrivial"] = rep.Coverage["states"]
-	rep.Coverage["rule"] = "library part: Connect() of the real client (RetryCount 2) configured without user / with user and password / with user only / with a password but no user, with and without a will, against a scripted gateway that ignores or answers each CONNECT attempt (all patterns, also through the will exchange), all thread interleavings of the call: a client without a user never sends AUTH; with a user every CONNECT datagram is immediately followed by AUTH(PLAIN) with exactly the configured credentials"
+	rep.Coverage["rule"] = "library part: Connect() of the real client (RetryCount 2) configured without user / with user and password / with user only / with a password but no user, with and without a will, against a scripted gateway that ignores or answers each CONNECT attempt (all patterns, also through the will exchange), all thread interleavings of the call; two configurations continue with a sleep cycle and a second Connect() (the CONNECT that returns the client to active): a client without a user never sends AUTH; with a user every CONNECT datagram is immediately followed by AUTH(PLAIN) with exactly the configured credentials"
 	rep.Assumptions = []string{"virtual time"}
 	rep.Finish()
 }
